@@ -347,7 +347,8 @@ def run_case(r, kind, counters, trace):
         handled, rid = list(anon._handled), id(anon)
         disp2.register(anon)
         del anon
-        gc.collect()
+        if r.random() < 0.05:
+            gc.collect()             # (reference counting frees the object at once; a full collection now and then for cycles)
         counters.inc("sole_owner_resources")
         from mpgameserver import SeqNum
         for name, mname, style in handled:
